@@ -20,6 +20,8 @@ func Main(args []string) int {
 	switch args[0] {
 	case "explore":
 		return explore(args[1:])
+	case "codec":
+		return codecMain(args[1:])
 	}
 	fmt.Fprintln(os.Stderr, "unknown chain sub-command", args[0])
 	return 2
@@ -37,6 +39,7 @@ func explore(args []string) int {
 	shards := fs.Int("shards", 1, "number of shards")
 	reps := fs.Int("reps", 2, "executions of every transaction on sibling branches (C07)")
 	repsAudit := fs.Int("reps-audit", 4, "executions of attestation transactions")
+	second := fs.Bool("second-app", false, "also execute every transaction in a second application instance (C07)")
 	allPaths := fs.Bool("all-paths", false, "execute every input path completely")
 	maxHeight := fs.Int64("maxheight", 0, "skip NextBlock beyond this height (0 = no bound)")
 	if err := fs.Parse(args); err != nil {
@@ -74,7 +77,7 @@ func explore(args []string) int {
 		return 2
 	}
 	e, err := Explore(w, wr, Options{PathFile: *paths, Alphabet: al, Nodes: *nodes, Seed: *seed, Shard: *shard, Shards: *shards,
-		Reps: *reps, RepsAudit: *repsAudit, MaxHeight: *maxHeight, AllPaths: *allPaths})
+		Reps: *reps, RepsAudit: *repsAudit, MaxHeight: *maxHeight, AllPaths: *allPaths, SecondApp: *second})
 	if cerr := wr.Close(); err == nil {
 		err = cerr
 	}
